@@ -53,6 +53,12 @@ type descriptor struct {
 	// construction context. The instance lives on the context it was started
 	// with: completion is reported exactly as before.
 	SplitCtx bool `json:"splitCtx,omitempty"`
+	// SigStarts: bit i set = start event i carries a signal definition "ss<i>".
+	// StartAll fires every start event; the action "startSignal" hands the
+	// instance such a signal later on (also after completion): a start event
+	// that has fired does not fire again - no token, no trace, no change in
+	// what the waiters are told.
+	SigStarts int `json:"sigStarts,omitempty"`
 }
 
 func build(d descriptor) *gen.Graph {
@@ -67,6 +73,9 @@ func build(d descriptor) *gen.Graph {
 	}
 	for i := 0; i < d.Starts; i++ {
 		st := b.Add(gen.KStart)
+		if d.SigStarts&(1<<i) != 0 {
+			st.Defs = []gen.EventDef{{Kind: "signal", Ref: fmt.Sprintf("ss%d", i)}}
+		}
 		cur := st
 		n := 0
 		if i < len(d.Chain) {
@@ -331,6 +340,17 @@ func runCase(d descriptor) *result {
 				return fail("requests", fmt.Sprintf("after the boundary event: requests %v want %v", got, obs.Requests), nil)
 			}
 			r.History = append(r.History, "boundary event delivered")
+		case "startSignal":
+			ref := fmt.Sprintf("ss%d", a.Arg%d.Starts)
+			in.P.ConsumeEvent(drive.Signal(ref))
+			if _, err := in.Quiesce(); err != nil {
+				r.Inconcl = err.Error()
+				return r
+			}
+			if got := take(); len(got) != 0 {
+				return fail("requests", fmt.Sprintf("signal %s handed to the instance after its start events fired: requests %v, want none", ref, got), nil)
+			}
+			r.History = append(r.History, "start signal "+ref+" delivered again")
 		case "cancelBuild":
 			if !d.SplitCtx {
 				continue
@@ -401,6 +421,23 @@ func runCase(d descriptor) *result {
 	if res := check("final wait"); res != nil {
 		return res
 	}
+	if d.SigStarts != 0 {
+		// the signals of the start events once more, after completion
+		for i := 0; i < d.Starts; i++ {
+			in.P.ConsumeEvent(drive.Signal(fmt.Sprintf("ss%d", i)))
+		}
+		if _, err := in.Quiesce(); err != nil {
+			r.Inconcl = err.Error()
+			return r
+		}
+		if got := take(); len(got) != 0 {
+			return fail("requests", fmt.Sprintf("start signals handed to the completed instance: requests %v, want none", got), nil)
+		}
+		newWaiter()
+		if res := check("after the late start signals"); res != nil {
+			return res
+		}
+	}
 	// cease-flow trace: exactly once, and last among flow traces
 	tr := in.Traces()
 	cease := -1
@@ -447,6 +484,10 @@ func draw(rt *rapid.T) descriptor {
 	if !d.SubDead && rapid.IntRange(0, 3).Draw(rt, "splitCtx") == 0 {
 		d.SplitCtx = true
 		kinds = append(kinds, "cancelBuild")
+	}
+	if rapid.IntRange(0, 2).Draw(rt, "signalStarts") == 0 {
+		d.SigStarts = rapid.IntRange(1, 1<<d.Starts-1).Draw(rt, "sigStarts")
+		kinds = append(kinds, "startSignal")
 	}
 	for i := 0; i < na; i++ {
 		d.Actions = append(d.Actions, action{Kind: rapid.SampledFrom(kinds).Draw(rt, "kind"), Arg: rapid.IntRange(0, 5).Draw(rt, "arg")})
